@@ -89,6 +89,52 @@ def main(have):
                 out.append(["works:%s[%s]" % (name, unit.case_id(case)), not bad, "; ".join(bad[:3])])
             except BaseException as ex:
                 out.append(["works:%s[%s]" % (name, unit.case_id(case)), False, "%s: %s" % (type(ex).__name__, ex)])
+    # the facade works over ANY device object: a user-written transport that has nothing but what the facade documents
+    # (opcodes, devicetype, execute), answers a few commands and reports a failure through its OWN exception class
+    try:
+        from pyscsi.pyscsi.scsi import SCSI
+        from pyscsi.pyscsi import scsi_enum_command as EC
+
+        class TransportBusy(Exception):
+            pass
+
+        class UserTransport:
+            def __init__(self, fail_on=()):
+                self.opcodes = EC.spc
+                self.devicetype = 0
+                self.seen = []
+                self.fail_on = fail_on
+
+            def execute(self, cmd, en_raw_sense=False):
+                self.seen.append(bytes(cmd.cdb))
+                if cmd.cdb[0] in self.fail_on:
+                    raise TransportBusy("busy")
+                if cmd.cdb[0] == 0x25:
+                    cmd.datain[:8] = bytes([0, 0, 0xFF, 0xFF, 0, 0, 2, 0])
+
+        t = UserTransport()
+        s = SCSI(t)
+        s.blocksize = 512
+        r = s.readcapacity10().result
+        s.testunitready()
+        out.append(["facade-over-a-user-transport:commands-work", r == {"returned_lba": 0xFFFF, "block_length": 512} and
+                    [c[0] for c in t.seen] == [0x12, 0x25, 0x00], "%r %r" % (r, [c.hex() for c in t.seen])])
+        for op, call in ((0x00, lambda f: f.testunitready()), (0x25, lambda f: f.readcapacity10()), (0x12, lambda f: f.inquiry())):
+            t = UserTransport(fail_on=(op,))
+            t.opcodes = EC.sbc
+            try:
+                f = SCSI.__new__(SCSI)
+                f.device = t
+                f._blocksize = 512
+                call(f)
+                res = "returned"
+            except TransportBusy:
+                res = "TransportBusy"
+            except BaseException as ex:
+                res = type(ex).__name__
+            out.append(["facade-over-a-user-transport:its-own-error-propagates:%02Xh" % op, res == "TransportBusy", res])
+    except BaseException as ex:
+        out.append(["facade-over-a-user-transport", False, "%s: %s" % (type(ex).__name__, ex)])
     # asking for a transport: refused iff its binding is missing, before anything is opened
     w = World()
     stub_sgio.WORLD = w
